@@ -224,3 +224,33 @@ pub fn random_data<T: Sc>(rng: &mut Rng, recipe: &Recipe, s: usize, exact: bool)
     }
     y
 }
+
+/// FINITE basis matrices whose entries span so many orders of magnitude that squares of the small
+/// entries vanish next to the large ones (ratio beyond 1e23 in single, 1e170 in double precision):
+/// a constant, a decaying exponential, a line (and a sine) followed by an exponential whose time
+/// constant is slightly negative, so that it GROWS to `exp(t)` at the last sample. Returns the
+/// recipe, ordinary parameters and the parameters at the edge of the range.
+pub fn range_edge_family(rng: &mut Rng, single: bool) -> (Recipe, Vec<f64>, Vec<f64>) {
+    use crate::models::{FnSpec, Kind};
+    let n = rng.range(5, 20);
+    let x: Vec<f64> = (0..n).map(|i| 0.25 + 3.5 * (i as f64) / (n - 1) as f64).collect();
+    let mut fns = vec![
+        FnSpec { kind: Kind::One, params: vec![] },
+        FnSpec { kind: Kind::Exp, params: vec![0] },
+        FnSpec { kind: Kind::Lin, params: vec![] },
+    ];
+    let mut names = vec!["tau1".to_string(), "tau2".to_string()];
+    let mut ordinary = vec![rng.uniform(1.0, 6.0), rng.uniform(0.8, 2.5)];
+    if rng.chance(0.5) {
+        fns.push(FnSpec { kind: Kind::Sinus, params: vec![2, 3] });
+        names.push("om".to_string());
+        names.push("ph".to_string());
+        ordinary.push(rng.uniform(0.8, 2.0));
+        ordinary.push(rng.uniform(0.6, 2.0));
+    }
+    fns.push(FnSpec { kind: Kind::Exp, params: vec![1] });
+    let t = if single { rng.uniform(54.0, 66.0) } else { rng.uniform(390.0, 450.0) };
+    let mut edge = ordinary.clone();
+    edge[1] = -x[n - 1] / t;
+    (Recipe { names, fns, x }, ordinary, edge)
+}
